@@ -15,17 +15,19 @@ use hxlib::*;
 const OPS: &[&str] = &["array_int", "array_float", "array_bool", "array_obj",
                        "vec_push", "vec_push_float", "vec_push_bool", "vec_push_obj",
                        "vec_reserve", "vec_reserve_float", "vec_reserve_bool", "vec_reserve_obj",
+                       "vec_fill", "vec_fill_float", "vec_fill_bool", "vec_fill_obj",
                        "manual_alloc", "manual_reuse", "bytes_alloc",
                        "string_repeat", "string_repeat_mb", "pad_left", "pad_right", "pad_left_mb", "pad_right_mb",
+                       "replace_sq", "join_sq",
                        "concat_double", "vec_new_lit", "closures"];
 
 /// (prelude, operation input).  The operation input is the same text for every size: the size is the
 /// global `n` set by the prelude, so that the compiled code (charged to the heap) is identical and
 /// accounting deltas are comparable between sizes.
-fn program(op: &str, n: i128) -> Option<(String, String)> {
+fn program(op: &str, n: i128, limit: u64) -> Option<(String, String)> {
     // every global is used in the prelude itself: at -O2 an unused top-level `let` is deleted and later inputs would not compile
     // pc: a three-byte pad character, se: a six-byte / two-character repeat unit
-    let pre = format!("let mut n = {}\nlet mut sx = \"0123456789abcdef\"\nlet mut pc = \"€\"\nlet mut se = \"€€\"\nlet mut used = 0\nused = sx.len() + pc.len() + se.len()\nused = n\nused\n", n);
+    let pre = format!("let mut n = {}\nlet mut sx = \"0123456789abcdef\"\nlet mut pc = \"€\"\nlet mut se = \"€€\"\nlet mut rsv = {}\nlet mut used = 0\nused = sx.len() + pc.len() + se.len() + rsv\nused = n\nused\n", n, fill_reserve(op, limit));
     let body = match op {
         "array_int" => "let a = Array<Int>(n)\nused = a.len()\nused\n",
         "array_float" => "let a = Array<Float>(n)\nused = a.len()\nused\n",
@@ -39,6 +41,12 @@ fn program(op: &str, n: i128) -> Option<(String, String)> {
         "vec_reserve_float" => "let v = Vec<Float>[1.5]\nv.reserve(n)\nused = v.capacity()\nused\n",
         "vec_reserve_bool" => "let v = Vec<Bool>[true]\nv.reserve(n)\nused = v.capacity()\nused\n",
         "vec_reserve_obj" => "let v = Vec[sx]\nv.reserve(n)\nused = v.capacity()\nused\n",
+        // reserve close to the limit, then push: the pushes that fit are free, then the amortised doubling no longer fits
+        // and every push grows the storage by exactly one element until the limit refuses
+        "vec_fill" => "let v = Vec<Int>[1]\nv.reserve(rsv)\nlet mut i = 0\nwhile i < n {\n  v.push(i)\n  i = i + 1\n}\nused = v.len()\nused\n",
+        "vec_fill_float" => "let v = Vec<Float>[1.5]\nv.reserve(rsv)\nlet mut i = 0\nwhile i < n {\n  v.push(2.5)\n  i = i + 1\n}\nused = v.len()\nused\n",
+        "vec_fill_bool" => "let v = Vec<Bool>[true]\nv.reserve(rsv)\nlet mut i = 0\nwhile i < n {\n  v.push(true)\n  i = i + 1\n}\nused = v.len()\nused\n",
+        "vec_fill_obj" => "let v = Vec[sx]\nv.reserve(rsv)\nlet mut i = 0\nwhile i < n {\n  v.push(sx)\n  i = i + 1\n}\nused = v.len()\nused\n",
         // the second allocation lands in the slot the free() has just released
         "manual_reuse" => "let a = alloc(n)\nfree(a)\nlet b = alloc(n)\nlet c = alloc(n)\nused = b + c\nused\n",
         "string_repeat_mb" => "let s = se.repeat(n)\nused = s.len()\nused\n",
@@ -49,12 +57,50 @@ fn program(op: &str, n: i128) -> Option<(String, String)> {
         "string_repeat" => "let s = sx.repeat(n)\nused = s.len()\nused\n",
         "pad_left" => "let s = sx.pad_left(n, \" \")\nused = s.len()\nused\n",
         "pad_right" => "let s = sx.pad_right(n, \" \")\nused = s.len()\nused\n",
+        // results whose length is the PRODUCT of two strings the program holds
+        "replace_sq" => "let a = \"a\".repeat(n)\nlet b = \"b\".repeat(n)\nlet r = a.replace(\"a\", b)\nused = r.len()\nused\n",
+        "join_sq" => "let p = \"x\\n\".repeat(n)\nlet b = \"b\".repeat(n)\nlet r = p.join(b)\nused = r.len()\nused\n",
         "concat_double" => "let mut s = sx\nlet mut i = 0\nwhile i < n {\n  s = s + s\n  i = i + 1\n}\nused = s.len()\nused\n",
         "vec_new_lit" => "let v = Vec<Int>[1, 2, 3, 4]\nlet mut i = 0\nlet mut keep = Vec[v]\nwhile i < n {\n  keep.push(Vec<Int>[1, 2, 3, 4])\n  i = i + 1\n}\nused = keep.len()\nused\n",
         "closures" => "fn mk(k) {\n  return fn(x) { return x + k }\n}\nlet mut keep = Vec[mk(0)]\nlet mut i = 0\nwhile i < n {\n  keep.push(mk(i))\n  i = i + 1\n}\nused = keep.len()\nused\n",
         _ => return None,
     };
     Some((pre, body.to_string()))
+}
+
+// ---- order log: what the host allocator is asked for (requests of at least HOST_T bytes; for a realloc the
+// increase) and what ensure_heap_capacity is asked (hook), in the order in which they happen.
+// Fixed-size, lock-free, never allocates.
+use std::alloc::{GlobalAlloc, Layout, System};
+use std::sync::atomic::{AtomicU64, AtomicUsize, Ordering};
+const HOST_T: usize = 64 * 1024;
+const LOG_CAP: usize = 8192;
+static LOG: [AtomicU64; LOG_CAP] = [const { AtomicU64::new(0) }; LOG_CAP];
+static LOG_N: AtomicUsize = AtomicUsize::new(0);
+static LOG_ON: AtomicUsize = AtomicUsize::new(0);
+fn log_event(kind: u64, v: u64) {
+    if LOG_ON.load(Ordering::Relaxed) == 0 { return; }
+    let i = LOG_N.fetch_add(1, Ordering::Relaxed);
+    if i < LOG_CAP { LOG[i].store((kind << 62) | (v & ((1 << 62) - 1)), Ordering::Relaxed); }
+}
+fn check_observer(additional: u64, fits: bool) { log_event(if fits { 2 } else { 3 }, additional); }
+struct LoggingAlloc;
+unsafe impl GlobalAlloc for LoggingAlloc {
+    unsafe fn alloc(&self, l: Layout) -> *mut u8 { if l.size() >= HOST_T { log_event(1, l.size() as u64); } unsafe { System.alloc(l) } }
+    unsafe fn alloc_zeroed(&self, l: Layout) -> *mut u8 { if l.size() >= HOST_T { log_event(1, l.size() as u64); } unsafe { System.alloc_zeroed(l) } }
+    unsafe fn dealloc(&self, p: *mut u8, l: Layout) { unsafe { System.dealloc(p, l) } }
+    unsafe fn realloc(&self, p: *mut u8, l: Layout, new_size: usize) -> *mut u8 {
+        if new_size > l.size() && new_size - l.size() >= HOST_T { log_event(1, (new_size - l.size()) as u64); }
+        unsafe { System.realloc(p, l, new_size) }
+    }
+}
+#[global_allocator]
+static GLOBAL: LoggingAlloc = LoggingAlloc;
+
+/// elements reserved by the vec_fill operations: all but 150 000 bytes of the limit
+fn fill_reserve(op: &str, limit: u64) -> i128 {
+    if !op.starts_with("vec_fill") { return 0; }
+    (limit as i128 - 150_000) / if op == "vec_fill_bool" { 1 } else { 8 }
 }
 
 #[repr(C)]
@@ -79,16 +125,43 @@ fn child() {
     let lim = RLimit { cur: cap << 20, max: cap << 20 };
     unsafe { setrlimit(RLIMIT_AS, &lim); }
     quiet_panics();
-    let (pre, body) = match program(&op, size) { Some(x) => x, None => { println!("RESULT 9 0 0 0 0 unknown-op"); return; } };
+    let (pre, body) = match program(&op, size, limit) { Some(x) => x, None => { println!("RESULT 9 0 0 0 0 unknown-op"); return; } };
     let cfg = match aelys_runtime::VmConfig::new(limit) { Ok(c) => c, Err(e) => { println!("RESULT 9 0 0 0 0 config:{}", e); return; } };
     let mut vm = match aelys_driver::new_vm_with_config(cfg, Vec::new()) { Ok(v) => v, Err(e) => { println!("RESULT 9 0 0 0 0 newvm:{}", esc(&format!("{}", e))); return; } };
     let r0 = run_on_vm(&mut vm, &pre, opt, 50_000_000);
     if r0.class != "ok" { println!("RESULT 9 0 0 0 0 prelude:{}:{}", r0.class, esc(&r0.detail)); return; }
+    // start from a heap without garbage (and next_gc at its floor): the collector model of the string loop needs it
+    vm.collect();
     let a0 = vm.heap().bytes_allocated() as u64 + vm.manual_heap().bytes_allocated() as u64;
     let p0 = vm_peak_kib();
+    aelys_runtime::verif::heap_check_observer_set(Some(check_observer));
+    LOG_N.store(0, Ordering::SeqCst);
+    LOG_ON.store(1, Ordering::SeqCst);
     let r = run_on_vm(&mut vm, &body, opt, 200_000_000);
+    LOG_ON.store(0, Ordering::SeqCst);
+    aelys_runtime::verif::heap_check_observer_set(None);
     let a1 = vm.heap().bytes_allocated() as u64 + vm.manual_heap().bytes_allocated() as u64;
     let p1 = vm_peak_kib();
+    // summary of the order log: host requests, the largest, those NOT preceded by a granted limit check that covers
+    // them (4 KiB slack), limit checks, refused limit checks, host requests after the first refused check
+    let n_ev = LOG_N.load(Ordering::SeqCst).min(LOG_CAP);
+    let (mut nhost, mut maxhost, mut uncovered, mut first_unc, mut nck, mut nfail, mut host_after_fail, mut max_ok) = (0u64, 0u64, 0u64, 0u64, 0u64, 0u64, 0u64, 0u64);
+    for i in 0..n_ev {
+        let e = LOG[i].load(Ordering::Relaxed);
+        let (k, v) = (e >> 62, e & ((1 << 62) - 1));
+        match k {
+            1 => { nhost += 1; maxhost = maxhost.max(v); if v > max_ok + 4096 { uncovered += 1; if first_unc == 0 { first_unc = v; } } if nfail > 0 { host_after_fail += 1; } }
+            2 => { nck += 1; max_ok = max_ok.max(v); }
+            _ => { nck += 1; nfail += 1; }
+        }
+    }
+    // the limit checks themselves (requested bytes, `!` = refused) when there are few: the per-iteration requests of the loops
+    let mut cks: Vec<String> = vec![];
+    if LOG_N.load(Ordering::SeqCst) <= 96 {
+        for i in 0..n_ev { let e = LOG[i].load(Ordering::Relaxed); let (k, v) = (e >> 62, e & ((1 << 62) - 1));
+            if k == 2 { cks.push(format!("{}", v)); } else if k == 3 { cks.push(format!("{}!", v)); } }
+    }
+    let ev = format!("EV:{}:{}:{}:{}:{}:{}:{}:{}:CK={}", nhost, maxhost, uncovered, first_unc, nck, nfail, host_after_fail, LOG_N.load(Ordering::SeqCst), cks.join(","));
     let kind = match r.class.as_str() {
         "ok" => 0, "runtime:OutOfMemory" => 1, "runtime:InvalidAllocationSize" => 2, "runtime:TypeError" => 3,
         "panic" => 5, "budget" => 7, _ => 9,
@@ -99,7 +172,7 @@ fn child() {
         let r2 = run_on_vm(&mut vm, "used\n", opt, 1_000_000);
         detail = format!("ok value={} used={}", r.value, r2.value);
     }
-    println!("RESULT {} {} {} {} {} {}", kind, a0, a1, p0, p1, esc(&detail));
+    println!("RESULT {} {} {} {} {} {} {}", kind, a0, a1, p0, p1, ev, esc(&detail));
 }
 
 struct Case { op: String, size: i128, limit: u64, opt: u32 }
@@ -127,14 +200,14 @@ fn run_case(exe: &std::path::Path, c: &Case, cap_mib: u64, timeout_s: u64) -> (i
     if let Some(mut e) = ch.stderr.take() { let _ = e.read_to_string(&mut err); }
     let status = match status { Some(s) => s, None => return (7, 0, 0, 0, "timeout".into()) };
     if let Some(line) = out.lines().find(|l| l.starts_with("RESULT ")) {
-        let f: Vec<&str> = line.splitn(7, ' ').collect();
-        if f.len() >= 6 {
+        let f: Vec<&str> = line.splitn(8, ' ').collect();
+        if f.len() >= 7 {
             let kind: i64 = f[1].parse().unwrap_or(9);
             let a0: i64 = f[2].parse().unwrap_or(0);
             let a1: i64 = f[3].parse().unwrap_or(0);
             let p0: i64 = f[4].parse().unwrap_or(0);
             let p1: i64 = f[5].parse().unwrap_or(0);
-            return (kind, a1 - a0, p1 - p0, a0, f.get(6).unwrap_or(&"").to_string());
+            return (kind, a1 - a0, p1 - p0, a0, format!("{} {}", f[6], f.get(7).unwrap_or(&"")));
         }
     }
     #[cfg(unix)]
@@ -155,13 +228,29 @@ fn sizes_for(op: &str, limit: u64, rng: &mut Rng, random: bool) -> Vec<i128> {
     let unit: i128 = match op {
         "array_bool" | "bytes_alloc" | "pad_left" | "pad_right" | "vec_reserve_bool" => 1,
         "pad_left_mb" | "pad_right_mb" => 3, "string_repeat_mb" => 6, "string_repeat" => 16, "manual_reuse" => 16, _ => 8 };
-    if op == "concat_double" { return if random { vec![rng.range_i64(0, 24) as i128] } else { vec![-1, 0, 1, 10, 15, 16, 17, 20, 30] }; }
+    if op == "replace_sq" || op == "join_sq" {
+        // n * n crosses the limit at about sqrt(limit); 2n (the two operands) fits far beyond that
+        let q = (l as f64).sqrt() as i128;
+        return if random { vec![if rng.chance(1, 2) { rng.range_i64(0, (2 * q) as i64) } else { rng.range_i64(0, 120_000) } as i128] }
+               else { vec![-1, 0, 1, 2, 100, q / 2, q - 30, q + 30, 2 * q, 20_000, 100_000] };
+    }
+    if op == "concat_double" { return if random { vec![rng.range_i64(0, 26) as i128] } else { vec![-1, 0, 1, 2, 10, 15, 16, 17, 18, 19, 20, 21, 24, 30] }; }
+    if op.starts_with("vec_fill") {
+        let e: i128 = if op == "vec_fill_bool" { 1 } else { 8 };
+        let r = fill_reserve(op, limit);
+        let room = 145_000 / e;      // about what is left after the reservation
+        return if random { vec![r + rng.range_i64(-300, (150_000 / e + 300) as i64) as i128] }
+               else { vec![-1, 0, 1, r - 1, r, r + 1, r + 2, r + room / 2, r + room - 2000 / e, r + 150_000 / e + 100, 2 * r] };
+    }
     if op.starts_with("vec_push") || op == "vec_new_lit" || op == "closures" {
         let per: i128 = if op == "vec_push_bool" { 1 } else if op.starts_with("vec_push") { 8 } else { 64 };
-        // pushes up to and beyond the limit: the amortised doubling stops fitting, the exact fallback takes over, then OutOfMemory
-        // (the model replays every push: most random counts are small, a third reaches into the region near the limit)
-        return if random { vec![if rng.chance(2, 3) { rng.range_i64(0, 3000) } else { rng.range_i64(0, (l / per + 2000) as i64) } as i128] }
-               else { vec![-1, 0, 1, 100, l / per / 2 + 1000, l / per - 20_000 / per, l / per] };
+        // plain push loops replay the doubling; the region near the limit is the business of vec_fill (quick tier) --
+        // with --deep (thorough tier) the plain loops run up to the limit as well
+        let deep = flag("--deep");
+        let top = if deep || per != 1 { l / per + 2000 } else { 70_000 };
+        return if random { vec![if rng.chance(2, 3) { rng.range_i64(0, 3000) } else { rng.range_i64(0, top as i64) } as i128] }
+               else if deep || per != 1 { vec![-1, 0, 1, 2, 100, l / per / 2 + 1000, l / per - 20_000 / per, l / per] }
+               else { vec![-1, 0, 1, 2, 100, 5000, 66_000] };
     }
     if random {
         return vec![match rng.below(7) {
@@ -213,7 +302,7 @@ fn main() {
             for (li, &limit) in limits.iter().enumerate() {
                 for s in sizes_for(op, limit, &mut rng, false) {
                     // the structured grid runs at every limit for the boundary sizes; the long-running loops only at the smallest
-                    if li > 0 && (op.starts_with("vec_push") || matches!(*op, "vec_new_lit" | "closures")) { continue; }
+                    if li > 0 && op.starts_with("vec_push") || li > 1 && op.starts_with("vec_fill") { continue; }   // instruction budget: millions of pushes
                     for &opt in &opts { cases.push(Case { op: op.to_string(), size: s, limit, opt }); }
                 }
             }
@@ -221,7 +310,7 @@ fn main() {
         for _ in 0..random {
             let op = *rng.pick(OPS);
             if let Some(o) = &only { if o != op { continue; } }
-            let limit = if op.starts_with("vec_push") || matches!(op, "vec_new_lit" | "closures") { limits[0] } else { *rng.pick(&limits) };
+            let limit = if op.starts_with("vec_push") { limits[0] } else if op.starts_with("vec_fill") { limits[rng.below(2.min(limits.len() as u64)) as usize] } else { *rng.pick(&limits) };
             let s = sizes_for(op, limit, &mut rng, true)[0];
             let opt = *rng.pick(&opts);
             cases.push(Case { op: op.to_string(), size: s, limit, opt });
@@ -244,7 +333,9 @@ fn main() {
     });
     for (k, c) in cases.iter().enumerate() {
         let (kind, da, dp, a0, detail) = results[k].lock().unwrap().clone().unwrap();
-        println!("{}\t{}\t{}\t{}\t{}\t{}\t{} {} {} {}\t{}", k, c.op, c.size, c.limit, c.opt, coq_op(&c.op), kind, da, dp, a0, detail);
+        let mut cop = coq_op(&c.op);
+        if c.op.starts_with("vec_fill") { cop = format!("{} {}", cop, fill_reserve(&c.op, c.limit)); }
+        println!("{}\t{}\t{}\t{}\t{}\t{}\t{} {} {} {}\t{}", k, c.op, c.size, c.limit, c.opt, cop, kind, da, dp, a0, detail);
     }
 }
 fn coq_op(op: &str) -> String {
@@ -252,9 +343,11 @@ fn coq_op(op: &str) -> String {
         "array_int" => "OArray 8".into(), "array_float" => "OArray 8".into(), "array_bool" => "OArray 1".into(), "array_obj" => "OArray 8".into(),
         "vec_push" | "vec_push_float" | "vec_push_obj" => "OVecPush 8".into(), "vec_push_bool" => "OVecPush 1".into(),
         "vec_reserve" | "vec_reserve_float" | "vec_reserve_obj" => "OVecReserve 8".into(), "vec_reserve_bool" => "OVecReserve 1".into(),
+        "vec_fill" | "vec_fill_float" | "vec_fill_obj" => "OVecFill 8".into(), "vec_fill_bool" => "OVecFill 1".into(),
         "manual_alloc" => "OManual".into(), "manual_reuse" => "OManualReuse".into(),
         "bytes_alloc" => "OBytes".into(), "string_repeat" => "ORepeat 16".into(), "string_repeat_mb" => "ORepeat 6".into(),
         "pad_left" | "pad_right" => "OPad 16 16 1".into(), "pad_left_mb" | "pad_right_mb" => "OPad 16 16 3".into(),
+        "replace_sq" => "OProductSq 1".into(), "join_sq" => "OProductSq 2".into(),
         "concat_double" => "OConcatDouble 16".into(), "vec_new_lit" => "OVecLits".into(), "closures" => "OClosures".into(), o => format!("OUnknown_{}", o),
     }
 }
